@@ -158,7 +158,11 @@ func (tx *Transaction) Commit(ctx context.Context, scope *ReferenceScope, expr p
 			}
 
 			if !tx.Flags.ExportOptions.StripEndingLineBreak && !(fileInfo.Format == option.FIXED && fileInfo.SingleLine) {
-				if _, err := fp.Write([]byte(fileInfo.LineBreak.Value())); err != nil {
+				lineBreak, err := EncodeEndingLineBreak(fileInfo.ExportOptions(tx))
+				if err != nil {
+					return NewCommitError(expr, err.Error())
+				}
+				if _, err := fp.Write(lineBreak); err != nil {
 					return NewCommitError(expr, err.Error())
 				}
 			}
@@ -184,7 +188,11 @@ func (tx *Transaction) Commit(ctx context.Context, scope *ReferenceScope, expr p
 			}
 
 			if !tx.Flags.ExportOptions.StripEndingLineBreak && !(fileInfo.Format == option.FIXED && fileInfo.SingleLine) {
-				if _, err := fp.Write([]byte(fileInfo.LineBreak.Value())); err != nil {
+				lineBreak, err := EncodeEndingLineBreak(fileInfo.ExportOptions(tx))
+				if err != nil {
+					return NewCommitError(expr, err.Error())
+				}
+				if _, err := fp.Write(lineBreak); err != nil {
 					return NewCommitError(expr, err.Error())
 				}
 			}
